@@ -460,6 +460,9 @@ def history(ctx, r, lines, expect, meta):
                 else:
                     like = f'({arr_src}, {nl!r})'
                 code = f'out = dimod.append_variables(ss, {like}, sort_labels={sort})'
+                if r.random() < .3:
+                    code = f'out = ss.append_variables({like}, sort_labels={sort})'      # the (deprecated) method form delegates to the function
+                    ctx.tick('append_vars through SampleSet.append_variables')
                 ctx.tick(f'append_vars {form}: ' + ('label clash' if any(v in ref.labels for v in nl) else 'one row per sample' if k == len(ref.rows)
                                                    else 'one row broadcast' if k == 1 and ref.rows else 'wrong number of rows'))
                 rows_w = '|'.join(','.join(rat(x) for x in row) or '-' for row in nr) or '~'
@@ -793,9 +796,12 @@ def lookups(ctx, r, op, ss, ref, env, src, lines, expect, meta):
         ctx.tick('handles re-read'); ctx.case(('handles', hist_src), nontrivial=True)
         got = (list(g['vs_h']), list(ss.variables), [g['vs_h'].index(v) for v in labels], [v in g['vs_h'] for v in labels],
                _fr(np.asarray(g['rec_h'].sample).tolist()) if labels and m else None,
-               [dict((k, F(float(x))) for k, x in g['sa_h'][i].items()) for i in range(m)])
+               [dict((k, F(float(x))) for k, x in g['sa_h'][i].items()) for i in range(m)],
+               len(g['sa_h']), [len(g['sa_h'][i]) for i in range(m)], [[F(float(x)) for x in g['it_h'][i].values()] for i in range(m)],
+               [list(g['sa_h'][i].keys()) for i in range(m)])
         exp = (labels, labels, list(range(len(labels))), [True] * len(labels), [row[0] for row in ref.rows] if labels and m else None,
-               [dict(zip(labels, row[0])) for row in ref.rows])
+               [dict(zip(labels, row[0])) for row in ref.rows],
+               m, [len(labels)] * m, [list(row[0]) for row in ref.rows], [list(labels)] * m)
         if got != exp:
             return fail('SampleSet.variables / samples() / record', f'held variables/samples()/record answer {got!r}, the sample set holds {exp!r}',
                         f'assert list(vs_h) == list(ss.variables) == {labels!r}\nassert [vs_h.index(v) for v in {labels!r}] == list(range({len(labels)}))\n'
